@@ -131,6 +131,9 @@ pub enum Step {
     RFold,
     /// `rev().last()` resp. `try_fold`-style `find` from the front (`position`), consuming
     RevLast,
+    /// searching / reducing adaptors on a clone of a shared iterator: position, rposition, find, rfind,
+    /// max_by_key, min_by_key, all, any, Iterator::eq
+    Search,
 }
 
 #[derive(Debug, Clone, Copy, PartialEq, Eq, Hash, Serialize, Deserialize)]
@@ -235,6 +238,8 @@ pub enum Op {
     /// ==, partial_cmp, cmp, hash against a same-capacity buffer built at layout (start, len)
     /// whose values copy ours except position `Idx` gets a different value (None: equal)
     Cmp(u32, u32, Option<Idx>),
+    /// the same against a buffer of another capacity m <= 8 (first field): ==, != and partial_cmp
+    CmpCap(u32, u32, u32, Option<Idx>),
     /// == against a slice with the same values except at position (None: equal); Some(Past(k)):
     /// slice longer by k
     EqSlice(Option<Idx>),
@@ -283,6 +288,7 @@ impl Op {
             Op::CloneBuf(_) => "clone",
             Op::ToVec => "to_vec",
             Op::Cmp(..) => "cmp",
+            Op::CmpCap(..) => "cmp_other_capacity",
             Op::EqSlice(_) => "eq_slice",
             Op::Dbg(_) => "debug",
             Op::FromArray(_) => "from_array",
@@ -412,6 +418,7 @@ pub fn render_steps(st: &[Step]) -> String {
             Step::StepBy(k) => format!("step_by({})", *k as usize + 1),
             Step::RFold => "rfold".to_string(),
             Step::RevLast => "rev().last()".to_string(),
+            Step::Search => "search".to_string(),
         })
         .collect::<Vec<_>>()
         .join(",")
@@ -439,6 +446,7 @@ pub fn render_op(op: &Op) -> String {
         Op::IntoIter(st) => format!("into_iter[{}]", render_steps(st)),
         Op::CloneBuf(b) => format!("clone(keep_clone={b})"),
         Op::Cmp(s, l, d) => format!("cmp(other start={s} len={l} differ_at={})", d.map(|d| d.to_string()).unwrap_or("none".into())),
+        Op::CmpCap(m, s, l, d) => format!("cmp(other capacity={m} start={s} len={l} differ_at={})", d.map(|d| d.to_string()).unwrap_or("none".into())),
         Op::EqSlice(d) => format!("eq_slice(differ_at={})", d.map(|d| d.to_string()).unwrap_or("none".into())),
         Op::Dbg(a) => format!("debug(alt={a})"),
         Op::FromArray(m) => format!("from([T;{m}])"),
